@@ -363,7 +363,25 @@ def check_points(ctx, prog):
                  fn=fn, line=fn.line)
 
 
+def check_snapshot(ctx, prog):
+    """ncmpio_redef: the header snapshot (ncp->old = dup_NC) that enddef later compares and fills against is taken after
+    the record count has been synchronised (leaving independent mode), never before"""
+    fn = ctx.need_fn(prog, "ncmpio_redef")
+    dups = patterns.call_sites(fn, lambda n: n == "dup_NC")
+    syncs = patterns.call_sites(fn, lambda n: n in ("ncmpio_end_indep_data", "ncmpio_sync_numrecs"))
+    ctx.require(len(dups) == 1 and syncs, "ncmpio_redef: dup_NC / record-count synchronisation call not found")
+    db, di, dc = dups[0]
+    bad = [c for b, i, c in syncs if (b.id == db.id and i > di) or (b.id != db.id and cfg.can_reach(fn, db.id, b.id))]
+    if bad:
+        ctx.fail("R4.nr.snapshot", fn.name, "dup_NC", "the header snapshot for the redefinition is taken before %s(): entering "
+                 "define mode straight from independent data mode freezes this rank's stale record count in ncp->old, and "
+                 "enddef fills / moves records according to it" % bad[0]["fn"], fn=fn, line=dc.get("l", fn.line), inst="redef")
+    else:
+        ctx.ok("R4.nr.snapshot", "redef", "dup_NC follows the record-count synchronisation")
+
+
 def run(ctx):
+    ctx.rule("R4.nr.snapshot", "the redefinition snapshot is taken after the record count is synchronised")
     ctx.rule("R4.nr.sync", "after ncmpio_write_numrecs(ncp,E) every path to the exit makes ncp->numrecs >= E")
     ctx.rule("R4.nr.max", "the written value is Allreduce(MPI_MAX)-derived when nprocs > 1")
     ctx.rule("R4.nr.mono", "every store to NC.numrecs is guarded by old<new, MAX-reduced over old, or a listed init")
@@ -382,5 +400,6 @@ def run(ctx):
     check_mono_dirty(ctx, prog)
     check_erange(ctx, prog)
     check_points(ctx, prog)
+    check_snapshot(ctx, prog)
     n = r5.run_r5(ctx, prog)
     ctx.min_instances("R5.queue", 30)
